@@ -208,6 +208,31 @@ func c19Exec(res *verifrt.Result, c c19Case) {
 			viol("C19 reload attempted without a timer expiry on="+tok, fmt.Sprintf("%d extra attempts", len(r.signals)-nsig))
 			return false
 		}
+		// more than one timer pending: the window opened by the first pending request must still end in a reload attempt
+		// (a debouncer that restarts its window on every request postpones the reload for as long as requests keep coming)
+		r.mu.Lock()
+		pend := len(r.timers) - r.fired
+		var oldest chan time.Time
+		if pend > 1 {
+			oldest = r.timers[r.fired]
+		}
+		r.mu.Unlock()
+		if oldest != nil && needApply {
+			r.script = []bool{true}
+			oldest <- time.Time{}
+			for i := 0; i < 2000 && len(oldest) > 0; i++ {
+				time.Sleep(100 * time.Microsecond)
+			}
+			if !park(tok + "+expiry-of-the-first-window") {
+				return false
+			}
+			if len(r.signals) == nsig {
+				viol("C19 the expiry of the window opened by the first pending request leads to no reload attempt: every new request postpones the reload",
+					fmt.Sprintf("%d timers pending after %s; the oldest one was fired and nothing happened", pend, tok))
+			}
+			res.Count("executions_ended_at_a_second_pending_timer", 1)
+			return false // the reference model does not follow implementations with several pending timers any further
+		}
 		if r.armed() != armed {
 			kind := "timer armed although nothing is pending"
 			if armed {
